@@ -536,6 +536,8 @@ func (c *Ctx) c09RunShapes(tag string, groups [][]c09Shape, cpu, cutoff float64,
 	c.Emit("c09.holds.balanced", c09MeshTokens(mesh, true, false), "true")
 	c.Emit("c09.holds.outward", c09MeshTokens(mesh, true, true), "true")
 	c.Emit("c09.holds.near_iso", Fs(cpu, cutoff)+" "+strconv.Itoa(len(toks))+" "+strings.Join(toks, " ")+" "+c09MeshTokens(mesh, false, true), "true")
+	// per-triangle orientation: normal vs the inside→outside directions of the lattice edges its corners lie on
+	c.Emit("c09.holds.tri_outward", Fs(cpu, cutoff)+" "+strconv.Itoa(len(toks))+" "+strings.Join(toks, " ")+" "+c09MeshTokens(mesh, true, true), "true")
 }
 
 // ---------------------------------------------------------------- lattice-aligned / exact-cutoff inputs
